@@ -10,8 +10,10 @@ import (
 // G is a workload generator bound to one run's PRNG.
 type G struct {
 	R *rng.Rng
-	// Hostility 0..3 raises the share of odd-but-legal and illegal forms.
-	Odd int
+	// Strict keeps to constructs the library's name-addr grammar accepts
+	// (used where a sender-side model demands acceptance): no whitespace in
+	// front of a list comma, display tokens starting with a letter or digit.
+	Strict bool
 }
 
 func New(r *rng.Rng) *G { return &G{R: r} }
@@ -325,7 +327,7 @@ func (g *G) TagVal() string {
 	case 1:
 		return g.hexstr(8, true) + "-" + g.hexstr(4, true)
 	case 2:
-		return g.alnum(8, 16) + g.R.Pick([]string{"", "=", "=="})
+		return g.alnum(8, 16)
 	}
 	return g.tok(1, 16)
 }
@@ -367,7 +369,7 @@ func (g *G) NameAddr(contactLike bool) string {
 	disp := g.R.Intn(4) // 0 none+bracket, 1 token(s), 2 quoted, 3 bare uri
 	switch disp {
 	case 1:
-		sb.WriteString(g.tok(1, 8))
+		sb.WriteString(g.alnum(1, 1) + g.tok(0, 7))
 		if g.R.Chance(1, 3) {
 			sb.WriteString(" " + g.tok(1, 6))
 		}
@@ -396,7 +398,7 @@ func (g *G) NameAddr(contactLike bool) string {
 }
 
 // NameAddrList makes 1..n comma separated values.
-func (g *G) NameAddrList(maxn int) string {
+func (g *G) NameAddrList(maxn int, star bool) string {
 	n := 1
 	if g.R.Chance(1, 2) {
 		n = g.R.Range(1, maxn)
@@ -404,14 +406,18 @@ func (g *G) NameAddrList(maxn int) string {
 	parts := make([]string, n)
 	for i := range parts {
 		parts[i] = g.NameAddr(true)
-		if parts[i] == "*" && n > 1 {
+		if parts[i] == "*" && (n > 1 || !star) {
 			parts[i] = "<" + g.URI(false) + ">"
 		}
 	}
 	var sb strings.Builder
 	for i, p := range parts {
 		if i > 0 {
-			sb.WriteString(g.OptLWS() + "," + g.OptLWS())
+			if g.Strict {
+				sb.WriteString("," + g.OptLWS())
+			} else {
+				sb.WriteString(g.OptLWS() + "," + g.OptLWS())
+			}
 		}
 		sb.WriteString(p)
 	}
